@@ -221,7 +221,7 @@ pub fn eval_meta(c: &MetaCase) -> Outcome {
         for (a, b) in dw.iter().zip(dn.iter()) {
             if a != b {
                 key = a.0.split('.').last().unwrap_or("").trim_end_matches(char::is_numeric).to_string();
-                diff = format!("{}: with metadata {} / without {}", a.0, &a.1[..a.1.len().min(160)], &b.1[..b.1.len().min(160)]);
+                diff = format!("{}: with metadata {} / without {}", a.0, clip(&a.1, 160), clip(&b.1, 160));
                 break;
             }
         }
